@@ -535,6 +535,48 @@ func (r *Rig) HostState(id types.FileContractID) (rhp4.RevisionState, error) {
 // ---------------------------------------------------------------------------------------------
 // raw renter
 
+// RecordingTransport wraps a TransportClient and keeps, per stream, every byte the renter wrote.
+type RecordingTransport struct {
+	rhp4.TransportClient
+	mu      sync.Mutex
+	Streams [][]byte
+}
+
+type recordingConn struct {
+	net.Conn
+	rt  *RecordingTransport
+	idx int
+}
+
+func (rt *RecordingTransport) DialStream(ctx context.Context) (net.Conn, error) {
+	c, err := rt.TransportClient.DialStream(ctx)
+	if err != nil {
+		return nil, err
+	}
+	rt.mu.Lock()
+	rt.Streams = append(rt.Streams, nil)
+	idx := len(rt.Streams) - 1
+	rt.mu.Unlock()
+	return &recordingConn{Conn: c, rt: rt, idx: idx}, nil
+}
+
+func (rc *recordingConn) Write(p []byte) (int, error) {
+	rc.rt.mu.Lock()
+	rc.rt.Streams[rc.idx] = append(rc.rt.Streams[rc.idx], p...)
+	rc.rt.mu.Unlock()
+	return rc.Conn.Write(p)
+}
+
+// Last returns what was sent on the most recent stream.
+func (rt *RecordingTransport) Last() []byte {
+	rt.mu.Lock()
+	defer rt.mu.Unlock()
+	if len(rt.Streams) == 0 {
+		return nil
+	}
+	return append([]byte(nil), rt.Streams[len(rt.Streams)-1]...)
+}
+
 // A Stream is one raw RHP4 stream to the host.
 type Stream struct {
 	net.Conn
